@@ -123,18 +123,14 @@ theorem rowMajor_split (ind : Ind F) (a b out : List (Candle F)) (h : rowMajor i
 
 /-! ### `_find_calc_index` on `done ++ fresh` -/
 
-/-- the three behaviours of `_find_calc_index`: nothing done → 0; only candle 0 done → 0 (it is
-visited again); at least two done → the first candle without the key -/
+/-- `_find_calc_index` resumes exactly at the first candle without the key (its backward scan
+inspects every index down to 0) -/
 theorem findCalcIndex_split (name : String) (done fresh : List (Candle F))
     (hd : ∀ c ∈ done, hasKey name c = true) (hf : ∀ c ∈ fresh, hasKey name c = false) :
-    findCalcIndex name (done ++ fresh) = if done.length ≤ 1 then 0 else done.length := by
+    findCalcIndex name (done ++ fresh) = done.length := by
   match done, hd with
   | [], _ => simpa using findCalcIndex_fresh name fresh hf
-  | [d0], _ => simpa using findCalcIndex_one name d0 fresh hf
-  | d0 :: d1 :: dr, hd =>
-    have : ¬ ((d0 :: d1 :: dr).length ≤ 1) := by simp
-    simp only [this, if_false]
-    exact findCalcIndex_resume name (d0 :: d1 :: dr) fresh ⟨hd, hf⟩ (by simp)
+  | d0 :: dr, hd => exact findCalcIndex_resume name (d0 :: dr) fresh ⟨hd, hf⟩ (by simp)
 
 /-! ### the loop over the raw part -/
 
@@ -178,45 +174,9 @@ theorem leafCalc_refines (ind : Ind F) (K : Contract ind) (raw₁ raw₂ done : 
     (fun c hc => hasKey_plain ind.name c (hp₂ c hc))
   unfold leafCalc
   rw [hidx]
-  by_cases hlen : done.length ≤ 1
-  · simp only [hlen, if_true, Nat.sub_zero]
-    match done, raw₁, hdec, h₁, hinv, hlen with
-    | [], _, _, _, hinv, _ =>
-      simpa using leafLoop_fresh ind K raw₂ [] hinv hp₂
-    | [d0], [c0], hdec, h₁, hinv, _ =>
-      -- only candle 0 is finished: it is visited again (skipped, or recomputed to the same value)
-      have hs : rowStep ind [] c0 = .ok [d0] := by
-        have := h₁; unfold rowMajor at this; rw [rowMajorFrom_cons] at this
-        cases hs : rowStep ind [] c0 with
-        | error e => rw [hs] at this; cases this
-        | ok d => rw [hs] at this; simpa [rowMajorFrom_nil, bind, Except.bind] using this
-      obtain ⟨v, hv, hd⟩ := rowStep_ok ind [] c0 [d0] hs
-      have hd0 : d0 = setKey ind.isSub ind.name (v.roundBy ind.round) c0 := by simpa using hd
-      have hc0 : Plain c0 := hp₁ c0 (by simp)
-      have hstep : stepLeaf ind ([d0] ++ raw₂) (0 : Nat) = .ok ([d0] ++ raw₂) := by
-        have := stepLeaf_reproduce ind K [] c0 raw₂ v K.inv_nil hc0 hv
-        rw [← hd0] at this
-        simpa using this
-      have hloop := leafLoop_fresh ind K raw₂ [d0] hinv hp₂
-      show leafLoop ind ([d0] ++ raw₂) 0 (([d0] ++ raw₂).length) = _
-      have hl : ([d0] ++ raw₂).length = raw₂.length + 1 := by simp
-      rw [hl, leafLoop]
-      have hidx0 : pyIndex ([d0] ++ raw₂) ((0 : Nat) : Int) = .ok d0 := by
-        simpa using pyIndex_append_cons ([] : List (Candle F)) d0 raw₂
-      rw [hidx0]
-      simp only [bind, Except.bind]
-      by_cases hpres : present ind.name d0 = true
-      · simp only [hpres, if_true, pure, Except.pure]
-        simpa using hloop
-      · simp only [hpres, Bool.false_eq_true, if_false, hstep]
-        simpa using hloop
-    | [_], [], hdec, _, _, _ => cases hdec
-    | [_], _ :: _ :: _, hdec, _, _, _ => cases hdec with | cons _ h => cases h
-    | _ :: _ :: _, _, _, _, _, hlen => simp at hlen
-  · simp only [hlen, if_false]
-    have : (done ++ raw₂).length - done.length = raw₂.length := by simp
-    rw [this]
-    exact leafLoop_fresh ind K raw₂ done hinv hp₂
+  have : (done ++ raw₂).length - done.length = raw₂.length := by simp
+  rw [this]
+  exact leafLoop_fresh ind K raw₂ done hinv hp₂
 
 /-- the same for the engine with fuel (any fuel ≥ length + 2) -/
 theorem calculate_refines (ind : Ind F) (hl : IsLeaf ind) (K : Contract ind)
